@@ -147,7 +147,18 @@ impl PointCloud {
             }
             let ns = n.lookup_prefix(n.tag_name().namespace().unwrap_or_default());
             let tag = n.tag_name().name();
-            let name = RecordName::from_namespace_and_tag_name(ns, tag)?;
+            // Only records in the namespace of the E57 standard can be standard records,
+            // a record from an extension namespace can have the same local name
+            let is_extension = n.tag_name().namespace().is_some()
+                && n.tag_name().namespace() != prototype_tag.tag_name().namespace();
+            let name = if is_extension {
+                RecordName::Unknown {
+                    namespace: ns.unwrap_or_default().to_owned(),
+                    name: tag.to_owned(),
+                }
+            } else {
+                RecordName::from_namespace_and_tag_name(ns, tag)?
+            };
             let data_type = RecordDataType::from_node(&n)?;
             prototype.push(Record { name, data_type });
         }
